@@ -9,13 +9,22 @@ from __future__ import annotations
 
 from typing import Any
 
+import sys
+
 import anyio
 
 from . import vclock
+
+if sys.version_info < (3, 11):  # pragma: no cover
+    from exceptiongroup import BaseExceptionGroup
 from .kernel import EXN, TYPES
 
 TICK = 1.0
 FLUSH = 10.0 ** 7
+
+
+class _Hang(Exception):
+    pass
 
 
 class Gen:
@@ -127,9 +136,18 @@ class StartupRun:
         try:
             async with Context() as ctx:
                 try:
-                    root = await start_component(self.classes[0], {}, timeout=self.case["timeout"] * TICK)
+                    # safety net of the harness: if everything is blocked for ever the virtual clock
+                    # jumps here instead of the process hanging
+                    with anyio.move_on_after(10.0 ** 8) as guard:
+                        root = await start_component(self.classes[0], {}, timeout=self.case["timeout"] * TICK)
+                    if guard.cancelled_caught:
+                        outcome = {"k": "hang"}
+                        self.log("raised", outcome)
+                        raise _Hang()
                     self.log("returned")
                     outcome = {"k": "returned", "root_ok": type(root) is self.classes[0]}
+                except _Hang:
+                    pass
                 except ComponentStartError as e:
                     cause = e.__cause__
                     ci = next((n for n, c in enumerate(EXN) if type(cause) is c), 0 if isinstance(cause, ValueError) else 99)
@@ -137,6 +155,10 @@ class StartupRun:
                     self.log("raised", outcome)
                 except TimeoutError:
                     outcome = {"k": "timeout"}
+                    self.log("raised", outcome)
+                except BaseExceptionGroup as eg:
+                    # a failure and the time-out in the very same instant surface together
+                    outcome = {"k": "group", "members": sorted(type(x).__name__ for x in eg.exceptions)}
                     self.log("raised", outcome)
                 n_before = len(self.trace)
                 await anyio.sleep(FLUSH)         # anything still running would show up now
